@@ -23,6 +23,7 @@ def extra(chk, info, res):
     from checks import tank_common as tc
 
     tc.decisions_correspondence(chk)
+    tc.sensor_check(chk)  # "the last measured tank level": the sensor model (failed ADC attempts never move the level across a threshold)
     valve_monitor(chk)
 
 
